@@ -64,6 +64,19 @@ def check(res):
     for l in run([gen, "c06"], timeout=600, check=True).stdout.splitlines():
         d = parse(l)
         model[d["label"]] = d
+    # after 60000 visits that ended in an exception, the nodes answer as they did before
+    firsts = {}
+    for d in impl:
+        if not d["label"].startswith(("after-refusals:", "premain:", "inmain:")):
+            firsts.setdefault(d["label"], d)
+    for d in [x for x in impl if x["label"].startswith("after-refusals:")]:
+        a = firsts.get(d["label"][15:].replace(" ", "_"))
+        if a is not None and any(a[x] != d[x] for x in ("cat", "full", "sinks", "views")):
+            res.violation("oracle:after-refusals", "after 60000 visits that a visitor refused with std::logic_error, node %s answers %s; before it answered %s" %
+                          (d["label"][15:], {x: d[x] for x in ("cat", "full", "sinks", "views")}, {x: a[x] for x in ("cat", "full", "sinks", "views")}),
+                          {"node": d["label"][15:], "before": a, "after": d, "rerun": "build/<hash>/plain/c06_driver | grep '%s'" % d["label"][15:]})
+            break
+    impl = [d for d in impl if not d["label"].startswith("after-refusals:")]
     refl = f["reflect"]
     leaves = [k for k, v in refl.items() if v["is_node"] and v["code"] >= 0]
     seen = {}
